@@ -41,24 +41,19 @@ ClassSigOf(P) == {<<p[1], p[2], Cardinality({R \in P : <<Trace(R), Det(R)>> = p}
 \* P: a sequence of the distinct matrices of a finite matrix group
 IndexIn(P, m) == CHOOSE i \in DOMAIN P : P[i] = m
 MulTable(P) == [i \in DOMAIN P |-> [j \in DOMAIN P |-> IndexIn(P, MM(P[i], P[j]))]]
-\* below, group elements are indices into P and `mul` is MulTable(P)
+\* below, group elements are indices into P, `mul` is MulTable(P), `e` the index of the identity and `inv` the
+\* table of inverses (passed in, so that they are computed once)
 IdIndex(mul) == CHOOSE e \in DOMAIN mul : \A i \in DOMAIN mul : mul[e][i] = i
-InvIndex(mul, i) == CHOOSE j \in DOMAIN mul : mul[i][j] = IdIndex(mul)
+InvTable(mul, e) == [i \in DOMAIN mul |-> CHOOSE j \in DOMAIN mul : mul[i][j] = e]
 RECURSIVE CloseUnder(_, _, _)
 CloseUnder(mul, gens, S) ==       \* smallest superset of S closed under left multiplication by gens
   LET S2 == S \cup {mul[g][s] : g \in gens, s \in S} IN IF S2 = S THEN S ELSE CloseUnder(mul, gens, S2)
 \* in a finite group the closure of {e} under left multiplication by gens is the subgroup they generate
-Generated(mul, gens) == CloseUnder(mul, gens, {IdIndex(mul)})
-IsSubgroup(mul, H) == IdIndex(mul) \in H /\ \A a \in H, b \in H : mul[a][b] \in H
-\* every subgroup is reached by adjoining one element at a time
-RECURSIVE GrowSubgroups(_, _)
-GrowSubgroups(mul, Hs) ==
-  LET Hs2 == Hs \cup {Generated(mul, H \cup {g}) : H \in Hs, g \in DOMAIN mul}
-  IN IF Hs2 = Hs THEN Hs ELSE GrowSubgroups(mul, Hs2)
-AllSubgroups(mul) == GrowSubgroups(mul, {{IdIndex(mul)}})
-Conjugate(mul, H, g) == {mul[mul[g][h]][InvIndex(mul, g)] : h \in H}
-ConjClass(mul, H) == {Conjugate(mul, H, g) : g \in DOMAIN mul}
-ConjClasses(mul, Hs) == {ConjClass(mul, H) : H \in Hs}
+Generated(mul, e, gens) == CloseUnder(mul, gens, {e})
+IsSubgroup(mul, e, H) == e \in H /\ \A a \in H, b \in H : mul[a][b] \in H
+Conjugate(mul, inv, H, g) == {mul[mul[g][h]][inv[g]] : h \in H}
+ConjClass(mul, inv, H) == {Conjugate(mul, inv, H, g) : g \in DOMAIN mul}
+ConjClasses(mul, inv, Hs) == {ConjClass(mul, inv, H) : H \in Hs}
 
 \* the crystal "species 1: one atom at the origin; species 2: the H-orbit of the generic grid point u"
 \* on lattice `lat` (a world with any basis), grid D.  H: a set of integer matrices.
